@@ -174,3 +174,61 @@ def moment_given_termination(cx):
     g = NEG(guard.t)
     cx.requires(MP(g) != 0)
     cx.ensures(lambda st, r: z3.And(toreal(r.t[0]) == MP(monom.t * g) / MP(g), truthy(r.t[1]) == z3.And(EX(g), EX(monom.t * g))))
+
+
+@contract('program/assignment/functional_assignment.py', 'FunctionalAssignment.get_func_moment', ['C13'])
+def get_func_moment_c(cx):
+    """dispatch: Sin/Cos together with Exp is refused; trig powers go to get_trig_moment, Exp powers to get_exp_moment; nothing else is answered"""
+    TRIG = z3.Const('trig_moment', R); EXP = z3.Const('exp_moment', R)
+    powers = cx.map('func_powers', DS, DI)
+    arr, dom = powers.t
+    has = lambda k: z3.Select(dom, z3.StringVal(k))
+    cx.param(cls=cx.ref('cls'), dist=cx.ref('dist'), func_powers=powers)
+    cx.call('get_trig_moment', lambda ex, st, r, a, kw: VR(TRIG), trusted='get_trig_moment (bounded C13 check against quadrature)')
+    cx.call('get_exp_moment', lambda ex, st, r, a, kw: VR(EXP), trusted='get_exp_moment contract (above)')
+    cx.call('FunctionalAssignmentException', lambda ex, st, r, a, kw: V('exc', 'FunctionalAssignmentException'))
+    trig = z3.Or(has('Sin'), has('Cos')); exp_ = has('Exp')
+    cx.ensures(lambda st, r: z3.And(z3.Not(z3.And(trig, exp_)), z3.Or(trig, exp_), toreal(r) == z3.If(trig, TRIG, EXP)))
+    cx.raises(lambda st, e: z3.Or(z3.And(trig, exp_), z3.Not(z3.Or(trig, exp_))))
+
+
+@contract('program/assignment/functional_assignment.py', 'FunctionalAssignment.get_moment', ['C13', 'C03'])
+def functional_get_moment(cx):
+    """E[f(arg)^k * rest] split on the condition indicator: a numeric argument is evaluated immediately; a drawn argument is deferred to the
+    draw's assignment (the variable stays symbolic as var**k) and BOTH the functional assignment and the trigger are registered in the context"""
+    k = cx.int('k'); c = cx.real('c'); rest = cx.real('rest'); d = cx.real('default'); var = cx.real('variable'); isnum = cx.bool('argument_is_Number')
+    CONST = z3.Function('const_moment', I, R)
+    arg = cx.real('argument')
+    ctx = cx.ref('ctx')
+    me = cx.obj('FunctionalAssignment', argument=arg, variable=var, default=d)
+    cx.param(self=me, k=k, rec_builder_context=ctx, arithm_cond=c, rest=rest)
+    cx.attr('is_Number', lambda ex, st, o: isnum)
+    cx.call('get_const_moment', lambda ex, st, r, a, kw: VR(CONST(toint(a[0]))), trusted='get_const_moment: f(argument)**k (bounded C13 check)')
+    cx.st.vars['$registered'] = VB(False); cx.st.vars['$trigger'] = VB(False)
+
+    def reg(ex, st, r, a, kw):
+        st.vars['$registered'] = VB(True); return VNone()
+
+    def trig(ex, st, r, a, kw):
+        st.vars['$trigger'] = VB(z3.And(toreal(a[0]) == arg.t, toreal(a[1]) == var.t)); return VNone()
+    cx.call('add_func_assignments', reg); cx.call('add_trigger', trig)
+    cx.requires(k.t >= 0)
+    m = z3.If(isnum.t, CONST(k.t), POW(var.t, k.t))
+    cx.ensures(lambda st, r: z3.And(toreal(r) == c.t * m * rest.t + (1 - c.t) * POW(d.t, k.t) * rest.t,
+                                    z3.Implies(z3.Not(isnum.t), z3.And(st['$registered'].t, st['$trigger'].t))))
+
+
+@contract('utils/expressions.py', 'are_coprime', ['C16'])
+def are_coprime_c(cx):
+    """true iff all pairs of the integers are coprime"""
+    GCD = z3.Function('gcd', I, I, I)
+    ints = cx.seq('integers', DI)
+    cx.param(integers=ints)
+    cx.call('gcd', lambda ex, st, r, a, kw: VI(GCD(toint(a[0]), toint(a[1]))), trusted='math.gcd')
+    cx.set_hook('comprehension', lambda ex, st, comp: ints)      # [int(n) for n in integers]: the same integers
+    i_, j_ = z3.Int('i_'), z3.Int('j_')
+    pair_ok = lambda hi: z3.ForAll([i_, j_], z3.Implies(z3.And(0 <= i_, i_ < hi, i_ < j_, j_ < z3.Length(ints.t)), GCD(ints.t[i_], ints.t[j_]) == 1))
+    cx.invariant(0, lambda st: pair_ok(st['$i0'].t))
+    cx.invariant(1, lambda st: z3.And(pair_ok(st['i'].t), z3.ForAll([j_], z3.Implies(z3.And(st['i'].t < j_, j_ < st['i'].t + 1 + st['$i1'].t), GCD(ints.t[st['i'].t], ints.t[j_]) == 1)),
+                                      0 <= st['i'].t, st['i'].t < z3.Length(ints.t)))
+    cx.ensures(lambda st, r: truthy(r) == pair_ok(z3.Length(ints.t)))
